@@ -16,7 +16,10 @@ FUNCTIONS = ["FlodymArray.copy_dims", "FlodymArray.copy", "SubArrayHandler.to_fl
              "DimensionSet.copy", "FlodymArray.cast_values_to", "FlodymArray.full_like"]
 ASSUMPTIONS = ["aliasing itself is a memory fact observed on every explored path (np.shares_memory is recorded next to the probe); the solver contributes the for-all-values / no-hidden-branch part"]
 OUTSIDE = ["operations documented as in-place (inplace=True, set_values, [] assignment targets, compute())", "values arrays handed to a constructor (the property lists the stored dimension set, not the values)"]
+VARIANTS = 'slice reads of view-backed arrays; Sankey plot; sparse export with a NaN entry; to_stock_type; reflected neutral operations'
 BOUNDS = {"quick": dict(ops="every catalogue operation x every result x every input", dims="a2 b2 c3 t3"), "thorough": dict(ops="as quick", dims="as quick")}
+for _t in BOUNDS.values():
+    _t["variants_beyond_the_base_enumeration"] = VARIANTS
 # few configurations, many code paths per configuration: every one is also run on the unstubbed float64 code (2.5)
 SHADOW_ALWAYS = lambda cfg: True
 OPTS = {"quick": dict(shadow_every=5, max_paths=200, max_depth=800), "thorough": dict(shadow_every=5, max_paths=200, max_depth=800)}
